@@ -356,7 +356,8 @@ class Tree:
         to then point to the earlier scope's tag.
         """
         count = 0
-        for ind in reversed(self.stack):
+        # the root (bottom of the stack) is never closed, even if it has the same name
+        for ind in list(reversed(self.stack))[:-1]:
             count = count + 1
             if ind.name == name:
                 break
